@@ -169,8 +169,8 @@ public:
             auto* p  = etl::lower_bound(_storage.begin(), _storage.end(), value, cmp);
             if (p == _storage.end() || *(p) != value) {
                 _storage.push_back(etl::move(value));
-                auto* pos = rotate(p, _storage.end() - 1, _storage.end());
-                return make_pair(pos, true);
+                rotate(p, _storage.end() - 1, _storage.end());
+                return make_pair(p, true);
             }
         }
 
